@@ -130,6 +130,16 @@ func mkCase(kind string, params []string, t *N) (*Case, error) {
 		}
 		n := lit(params[0])
 		c.Comps = []*N{u("tobits", n), u("num", u("tobits", n)), u("tobytes", arr(n)), u("tobytes", n)}
+	case "memb":
+		if err := need(0); err != nil {
+			return nil, err
+		}
+		if err := needTree(); err != nil {
+			return nil, err
+		}
+		a61 := nd("s", []string{"61"})
+		c.Comps = []*N{t, u("tobytes", arr(t)), u("tobytes", arr(lit("1"), a61, t)),
+			u("tobytes", arr(t, u("tobits", a61))), u("tobits", arr(arr(t)))}
 	case "bad":
 		if err := need(0); err != nil {
 			return nil, err
@@ -185,6 +195,8 @@ func errClass(msg string) string {
 		return "err:outside"
 	case strings.Contains(msg, "invalid seek offset"):
 		return "err:offset"
+	case strings.Contains(msg, "cannot subtract"):
+		return "err:type"
 	case strings.Contains(msg, "negative nBits"):
 		return "err:negbits"
 	}
@@ -512,6 +524,49 @@ func (g *gen) intStr(inArr bool) string {
 	}
 }
 
+// target value for a computed array member: around the 0..255 boundaries, both signs
+func (g *gen) target() *big.Int {
+	r := g.r
+	if r.Intn(3) == 0 {
+		return big.NewInt(int64(r.Range(-300, 300)))
+	}
+	return big.NewInt(int64([]int{-1, -2, -127, -128, -129, -255, -256, -257, 0, 1, 127, 128, 254, 255, 256, 257, -65535, 65536}[r.Intn(18)]))
+}
+
+// computedNum: a number that is NOT a literal: fq's own results (.[i], .size, tonumber: *big.Int) and
+// arithmetic on them or on literals (int - int stays int, anything with a *big.Int operand is *big.Int)
+func (g *gen) computedNum() *N {
+	r := g.r
+	t := g.target()
+	subTo := func(v *big.Int, e *N) *N {
+		k := new(big.Int).Sub(v, t)
+		return nd("sub", []string{k.String()}, e)
+	}
+	switch g.pick(30, 12, 14, 16, 10, 18) {
+	case 0:
+		v := r.Intn(256)
+		return subTo(big.NewInt(int64(v)), nd("idx", []string{"0"}, u("tobytes", lit(strconv.Itoa(v)))))
+	case 1:
+		n := r.Range(0, 6)
+		return subTo(big.NewInt(int64(n)), u("size", u("tobytes", nd("s", []string{hexArg(r.Bytes(n))}))))
+	case 2:
+		v := new(big.Int).SetUint64(r.U64() >> uint(r.Range(1, 63)))
+		return subTo(v, u("num", u("tobits", lit(v.String()))))
+	case 3:
+		// big literal minus big literal
+		v := new(big.Int).SetBytes(r.Bytes(r.Range(9, 12)))
+		v.Add(v, new(big.Int).Lsh(big.NewInt(1), 64))
+		return subTo(v, lit(v.String()))
+	case 4:
+		// no arithmetic: 0..255 as *big.Int
+		return nd("idx", []string{strconv.Itoa(r.Range(0, 1))}, u("tobytes", lit(strconv.Itoa(r.Range(256, 65535)))))
+	default:
+		// int - int (stays int)
+		v := big.NewInt(int64(r.Range(-500, 500)))
+		return subTo(v, lit(v.String()))
+	}
+}
+
 func (g *gen) bad() *N {
 	return nd([]string{"z", "t", "f", "o"}[g.r.Intn(4)], nil)
 }
@@ -542,6 +597,9 @@ func (g *gen) leaf(inArr bool) *N {
 func (g *gen) V(d int, inArr bool) *N {
 	if d <= 0 {
 		return g.leaf(inArr)
+	}
+	if inArr && d >= 3 && g.r.Intn(8) == 0 {
+		return g.computedNum()
 	}
 	nw, aw := 0, 0
 	if d >= 2 {
@@ -668,6 +726,12 @@ func (g *gen) B(d int) *N {
 
 // Num: an expression that is a number or null
 func (g *gen) Num(d int) *N {
+	if d >= 3 && g.r.Intn(5) == 0 {
+		if g.r.Intn(2) == 0 {
+			return g.computedNum()
+		}
+		return nd("sub", []string{strconv.Itoa(g.r.Range(-300, 300))}, g.Num(d-1))
+	}
 	b := g.B(d - 1)
 	switch g.pick(40, 10, 10, 10, 5, 8, 17) {
 	case 0:
@@ -727,6 +791,8 @@ func must(c *Case, err error) *Case {
 func main() {
 	var expr string
 	flag.StringVar(&expr, "expr", "", "debug: evaluate one jq program and print the outputs")
+	var mode string
+	flag.StringVar(&mode, "mode", "ev", "ev: expression trees and laws; file: file-backed binaries")
 	cfg := hlib.ParseFlags()
 	if expr != "" {
 		t := time.Now()
@@ -749,6 +815,15 @@ func main() {
 
 	if cfg.Replay != "" {
 		for _, l := range hlib.ReplayLines(cfg.Replay) {
+			if strings.HasPrefix(l, "fcat ") || strings.HasPrefix(l, "fsl ") {
+				rn.flush()
+				if fc, err := parseFileCase(l); err == nil {
+					runFileCase(o, fc)
+				} else {
+					o.Case(l, "harness-parse-error")
+				}
+				continue
+			}
 			c, err := parseCase(l)
 			if err != nil {
 				// keep the line: the driver answers BADOP, nothing is silently dropped
@@ -765,6 +840,10 @@ func main() {
 	}
 
 	r := hlib.NewRand(cfg.Seed)
+	if mode == "file" {
+		genFileCases(o, r, cfg.Thorough())
+		return
+	}
 	g := &gen{r: r}
 
 	// roots for decode-value leaves: a real format with unaligned flag fields, and a synthetic
@@ -822,6 +901,11 @@ func main() {
 		"split 1 (tobytesr (i 3855))",
 		"pad 8 2 (tobits (i 5))",
 		"keys (bytes (sl 3 14 (tobits (s 616263))))",
+		"memb (sub 98 (idx 0 (tobytes (s 61))))",
+		"memb (sub 18446744073709551617 (i 18446744073709551616))",
+		"memb (sub 3 (i 2))",
+		"memb (size (tobytes (s 616263)))",
+		"ev (tobytes (a (i 1) (s 61) (sub 98 (idx 0 (tobytes (s 61))))))",
 	} {
 		rn.add(must(parseCase(l)))
 	}
@@ -887,6 +971,7 @@ func main() {
 		rn.add(must(mkCase("keys", nil, g.B(d))))
 		rn.add(must(mkCase("expl", nil, g.B(d))))
 		rn.add(must(mkCase("num", []string{g.intStr(false)}, nil)))
+		rn.add(must(mkCase("memb", nil, g.computedNum())))
 		if i%6 == 0 {
 			bads := []string{"(z)", "(t)", "(f)", "(o)", "(a (z))", "(a (i 1) (t))", "(a (a (o)))", "(a (s 61) (a (f)))"}
 			t, _ := ParseSexpr(bads[r.Intn(len(bads))])
